@@ -358,6 +358,31 @@ corpus! {
 }
 
 /// corpus types with host limits beyond the Candid type (128-bit integers, bounded vectors, fixed-size arrays)
+/// two DISTINCT types whose std::any::type_name coincide (types local to sibling blocks of one function): each round-trips,
+/// both in one message, and one after the other on the same thread -- type identity must not go by the printed name
+pub fn same_name() -> String {
+    fn check<A, B>(a: A, b: B) -> Result<(), String>
+    where A: CandidType + for<'d> Deserialize<'d> + PartialEq + Debug + Clone, B: CandidType + for<'d> Deserialize<'d> + PartialEq + Debug + Clone {
+        if std::any::type_name::<A>() != std::any::type_name::<B>() { return Err("the two local types do not share a type_name (the case is void)".into()); }
+        let m = candid::encode_args((a.clone(), b.clone())).map_err(|e| format!("encode both: {}", e))?;
+        let (a2, b2): (A, B) = candid::decode_args(&m).map_err(|e| format!("both in one message: {}", e))?;
+        if a2 != a || b2 != b { return Err("both in one message: values differ".into()); }
+        let (ma, mb) = (candid::encode_one(&a).map_err(|e| e.to_string())?, candid::encode_one(&b).map_err(|e| e.to_string())?);
+        let b3: B = candid::decode_one(&mb).map_err(|e| format!("B alone: {}", e))?;
+        let a3: A = candid::decode_one(&ma).map_err(|e| format!("A after B was decoded: {}", e))?;
+        let b4: B = candid::decode_one(&mb).map_err(|e| format!("B after A was decoded: {}", e))?;
+        if a3 != a || b3 != b || b4 != b { return Err("one after the other: values differ".into()); }
+        let (m2, _) = (candid::encode_args((b.clone(), a.clone())).map_err(|e| format!("encode both, other order: {}", e))?, ());
+        let (b5, a5): (B, A) = candid::decode_args(&m2).map_err(|e| format!("both in one message, other order: {}", e))?;
+        if a5 != a || b5 != b { return Err("other order: values differ".into()); }
+        Ok(())
+    }
+    let a = { #[derive(CandidType, Deserialize, Debug, PartialEq, Clone)] struct Sample { x: u8, y: String } Sample { x: 7, y: "seven".into() } };
+    let b = { #[derive(CandidType, Deserialize, Debug, PartialEq, Clone)] struct Sample { flag: bool, items: Vec<Int>, next: Option<Nat> } Sample { flag: true, items: vec![Int::from(-3), Int::from(4)], next: Some(Nat::from(9u32)) } };
+    let c = { #[derive(CandidType, Deserialize, Debug, PartialEq, Clone)] enum Sample { A, B(u16) } Sample::B(515) };
+    match check(a.clone(), b.clone()).and_then(|_| check(b, c.clone())).and_then(|_| check(c, a)) { Ok(()) => "ok".into(), Err(e) => format!("FAIL {}", e) }
+}
+
 pub fn has_host_limits(name: &str) -> bool {
     name.contains("128") || name.starts_with("BV") || name.starts_with('[') || name == "Nested"
 }
